@@ -431,3 +431,36 @@ def avoiders_123_with_minima(n, k, first):
             if ltr_minima(p) == sorted(mins.items()):
                 out.append(p)
     return out
+
+
+def has_132_fast(p):
+    """Quadratic test for long inputs: with p[j] as the '3', the best '1' is the minimum of the
+    prefix; a 132 with this '3' exists iff some later entry lies strictly between them."""
+    n = len(p)
+    m = None
+    for j in range(n):
+        if m is not None and m < p[j]:
+            pj = p[j]
+            for k in range(j + 1, n):
+                if m < p[k] < pj:
+                    return True
+        if m is None or p[j] < m:
+            m = p[j]
+    return False
+
+
+def block_avoider(n, j, a, b):
+    """The 123-avoider of length n whose j non-minima are the consecutive values b..b+j-1 at the
+    consecutive positions a..a+j-1 (decreasing, like all other entries), or None if that is not a
+    123-avoider with exactly these non-minima ("a decreasing sequence with a block of j
+    non-minima inserted")."""
+    if a < 1 or a + j > n or b < 0 or b + j > n:
+        return None
+    vals = set(range(b, b + j))
+    nm = iter(range(b + j - 1, b - 1, -1))
+    mn = iter(v for v in range(n - 1, -1, -1) if v not in vals)
+    p = tuple(next(nm) if a <= i < a + j else next(mn) for i in range(n))
+    mins = {i for i, _ in ltr_minima(p)}
+    if mins != set(range(n)) - set(range(a, a + j)):
+        return None
+    return p
